@@ -85,7 +85,8 @@ def run_case(n, adj, root, rng, agree, draws, sigma_scale):
     table = RecordingTable({a: [(b - 1, lengths[(min(a, b - 1), max(a, b - 1))]) for b in adj[a]]
                             for a in range(n) if adj[a] or True})
     ev = []
-    displ = rng.normal(size=3) * rng.choice([1e-6, 0.05, 0.5])
+    # a null displacement is a legitimate displacement: the bonds must still be restored to the table
+    displ = rng.normal(size=3) * rng.choice([0.0, 1e-6, 0.05, 0.5], p=[0.1, 0.2, 0.4, 0.3])
     keep = pos.copy()
     out = move_mol_atom(pos, table, atom_index=root - 1, displ=displ.copy(), sigma_scale=sigma_scale)
     look = table.lookups
